@@ -433,10 +433,12 @@ def pos_render(kind, optimized, pos, esrc, data):
             if kind == "overlay":
                 env = env.overlay(lstrip_blocks=True)
             t = env.get_template(name)
+        import re
+        addr = lambda x: re.sub(r"0[xX][0-9a-fA-F]+", "0x?", x)  # noqa: E731  (bound methods of constants print their address)
         if kind == "async":
-            return ("ok", X.run_async(t.render_async(**d)))
+            return ("ok", addr(X.run_async(t.render_async(**d))))
         out = t.render(**d)
-        return ("ok", out if isinstance(out, str) else (type(out).__name__, repr(out)))
+        return ("ok", addr(out) if isinstance(out, str) else (type(out).__name__, addr(repr(out))))
     except Exception as ex:
         return ("err", X.err_class(ex))
 
